@@ -17,11 +17,15 @@
  *        d<i>  lyd_free_tree of the instance at sibling position i
  *        r<j>  insert pool node j again (lyd_insert_child / lyd_insert_sibling)
  *        q<k>  lyd_find_sibling_val for key k -> 1 / 0
+ *        s<i>  lyd_unlink_siblings at the instance at position i (lyds_split when it is not the leader); it and ALL
+ *              following siblings become the chain (one chain at a time; oracle only, not in the Coq model)
+ *        m     insert the chain again (lyd_insert_child / lyd_insert_sibling of its first node -> lyd_move_nodes -> lyds_merge)
  * After EVERY op: result, state dump (every <every>-th op and the last one, otherwise ~) and the read-only
  * invariant check, `res/dump/inv`; ops separated by one blank.
  *   tree dump: pre-order, (<colour><key>.<id><left><right>), . for NULL; - when there is no metadata
  *   inv: ok or letters  P parent link  R red-red  H black height  O order  K root not black  W rb_next/rb_prev walk
- *        S sibling order differs from the in-order walk  M metadata not on the leader / twice  C instances not
+ *        S sibling order differs from the in-order walk  M metadata not on the leader / twice / an unlinked node owns a
+ *        tree with other nodes  C instances not
  *        contiguous or out of schema order  F lyd_find_sibling_val misses a present instance  L sibling links
  */
 #include "common.h"
@@ -502,6 +506,15 @@ state_check_dump(struct lst *s, struct lyd_node **pool, int npool, int show)
             }
         }
     }
+    /* an unlinked node may keep metadata, but then its tree is the one-node tree of the node itself */
+    for (i = 0; i < npool; i++) {
+        struct lyd_meta *mi = NULL;
+        struct rb_node *t = lyds_get_rb_tree(pool[i], &mi);
+
+        if (t && (RBN_LEFT(t) || RBN_RIGHT(t) || RBN_PARENT(t) || (RBN_DNODE(t) != pool[i]))) {
+            bad_add(bad, 'M');
+        }
+    }
     /* every present instance is found by value / keys */
     for (i = 0; i < s->ninst; i++) {
         char v1[32], v2[32], pred[96];
@@ -637,7 +650,7 @@ run_lyds(struct vcase *c)
     const char *place = c->f[2];
     int every = atoi(c->f[3]);
     char *ops = c->f[4], *tok, *save = NULL, *p;
-    struct lyd_node *pool[MAXT];
+    struct lyd_node *pool[MAXT], *chain = NULL;
     int npool = 0, opi = 0, nops = 1, first = 1, ti = -1;
 
     nn = 0;
@@ -741,6 +754,38 @@ run_lyds(struct vcase *c)
                 do_insert(s, n);
                 printf("+");
             }
+        } else if (tok[0] == 's') {
+            if (chain || (arg < 0) || (arg >= s->ninst)) {
+                printf("x");
+            } else {
+                struct lyd_node *n = s->inst[arg];
+
+                if (s->top && (s->first == n)) {
+                    s->first = NULL;
+                }
+                if (lyd_unlink_siblings(n)) {
+                    printf("E");
+                } else {
+                    chain = n;
+                    printf("-");
+                }
+            }
+        } else if (tok[0] == 'm') {
+            if (!chain) {
+                printf("x");
+            } else {
+                LY_ERR rc = LY_SUCCESS;
+
+                if (!s->top) {
+                    rc = lyd_insert_child(s->cont, chain);
+                } else if (s->first) {
+                    rc = lyd_insert_sibling(s->first, chain, &s->first);
+                } else {
+                    s->first = chain;
+                }
+                chain = NULL;
+                printf(rc ? "E" : "+");
+            }
         } else if (tok[0] == 'q') {
             char v1[32], v2[32], pred[96];
             struct lyd_node *match = NULL;
@@ -771,6 +816,7 @@ run_lyds(struct vcase *c)
     for (int i = 0; i < npool; i++) {
         lyd_free_tree(pool[i]);
     }
+    lyd_free_siblings(chain);
     if (s->top) {
         lyd_free_all(s->first);
     } else {
@@ -797,7 +843,7 @@ main(void)
     }
     while (vnext(&c)) {
         /* a damaged tree can make the library loop for ever: the case then ends as CRASH(-14) */
-        alarm(10);
+        alarm(4);
         if (!strcmp(c.f[0], "rbs") && (c.nf >= 3)) {
             run_rbs(&c);
         } else if (!strcmp(c.f[0], "lyds") && (c.nf >= 5)) {
